@@ -89,6 +89,26 @@ def op_outstruct_param(p, r):
     return t.name, m.name, "out-struct as a parameter"
 
 
+def op_outstruct_param_with_twin(p, r):
+    """the same fault while another bridge module declares a *plain* struct with the out-struct's identifier (renamed there, so that backends
+    can tell the two apart): which of the two a name means is decided per module (seed C05-i: the lookup tables keyed by bare name)"""
+    os_ = first(p, "outstruct", lambda t: not t.lifetimes)
+    t, m = pick_method(p, r)
+    if not os_ or not m or t not in p.modules[0].items or os_ not in p.modules[0].items:
+        return None
+    twin = spec.Struct(os_.name, [("q", ("prim", "u16")), ("r", ("prim", "u8"))])
+    twin.attrs.append('#[diplomat::attr(*, rename = "Twin%s")]' % os_.name)
+    mod = spec.Module(r.choice(["aa_twin", "zz_twin"]))
+    mod.attrs.append('#[diplomat::abi_rename = "twin_{0}"]')
+    mod.items = [twin]
+    p.modules.append(mod)
+    if r.random() < 0.5:
+        m.params.insert(0, ("bad", raw(os_.name)))
+        return t.name, m.name, "out-struct as a parameter (a plain struct of the same name lives in another module)"
+    m2 = add_method(os_, "bad_self", ("val",), [], ("prim", "u8"))
+    return os_.name, m2.name, "method on an out-struct (a plain struct of the same name lives in another module)"
+
+
 def op_outstruct_self(p, r):
     os_ = first(p, "outstruct")
     if not os_:
@@ -446,7 +466,7 @@ def op_trait_opaque_by_value_return(p, r):
 
 
 OPERATORS = [op_trait_ref_struct_arg, op_trait_opaque_by_value_arg, op_trait_result_arg, op_trait_opaque_by_value_return, op_missing_bound_beside_static, op_ordering_field, op_unit_field, op_write_field, op_option_result_return, op_result_in_result, op_owned_opaque_param, op_opaque_by_value_param, op_opaque_by_value_return, op_opaque_by_value_field, op_opaque_by_value_self,
-             op_outstruct_param, op_outstruct_self, op_ref_struct_param, op_ref_struct_self, op_box_struct_return, op_ref_prim_param,
+             op_outstruct_param, op_outstruct_param_with_twin, op_outstruct_self, op_ref_struct_param, op_ref_struct_self, op_box_struct_return, op_ref_prim_param,
              op_result_param, op_result_nested_return, op_result_field, op_std_option_prim_field, op_std_option_enum_field,
              op_std_option_struct_field, op_diplomat_option_ref, op_option_box_param, op_option_opaque_value, op_write_not_last,
              op_write_by_value_return, op_zst_struct_arg, op_zst_nested_input, op_zst_return, op_elided_lifetime_return, op_missing_opaque_def_bound,
